@@ -15,7 +15,9 @@ vars == <<links, spell, dfs, win, two, mix, phase>>
 Nd(i, p, k, nm) == [id |-> i, parent |-> p, kind |-> k, name |-> nm, target |-> -3, tstyle |-> "abs"]
 Skeleton == << Nd(1, 0, "dir", "r"), Nd(2, 1, "dir", "a"), Nd(3, 2, "file", "f1"), Nd(4, 1, "dir", "b"), Nd(5, 4, "dir", "c"),
                Nd(6, 5, "file", "f2"), Nd(7, 0, "dir", "out"), Nd(8, 7, "file", "o1"), Nd(9, 7, "dir", "od"), Nd(10, 9, "file", "o2"),
-               Nd(11, 1, "file", "f0") >>
+               Nd(11, 1, "file", "f0"),
+               \* (deeper levels of the outside tree: for depth windows that cut behind a link)
+               Nd(12, 9, "dir", "oe"), Nd(13, 12, "file", "o3"), Nd(14, 12, "dir", "og"), Nd(15, 14, "file", "o4") >>
 NS == Len(Skeleton)
 LinkNode(j) == [id |-> NS + j, parent |-> links[j].at, kind |-> "symlink", name |-> "l" \o ToString(j),
                 target |-> links[j].to, tstyle |-> links[j].style]
@@ -23,7 +25,7 @@ W == [nodes |-> Skeleton \o [j \in 1 .. Len(links) |-> LinkNode(j)]]
 
 Positions == {1, 2, 5}
 (* targets: node ids; 0 = the directory above the search root; -1 = dangling; 100 + j = link j (chains, mutual pairs) *)
-Targets == {0, 1, 2, 4, 5, 7, 9, 3, 8, -1}
+Targets == {0, 1, 2, 4, 5, 7, 9, 3, 8, -1, 12}
 Init == links = <<>> /\ spell = "" /\ dfs = FALSE /\ win = "" /\ two = FALSE /\ mix = "both" /\ phase = "links"
 AddLink == /\ phase = "links" /\ Len(links) < MaxLinks /\ Len(links) < 2
            \* (a second link may sit in the outside tree when the first one leads there: a link reached through a link, whose
@@ -49,7 +51,8 @@ AddTriple == /\ phase = "links" /\ links = <<>> /\ MaxLinks >= 2
              /\ UNCHANGED <<spell, dfs, win, two, mix, phase>>
 Finish == /\ phase = "links" /\ links # <<>>
           /\ spell' \in {"dot", "rel", "abs"} /\ dfs' \in BOOLEAN
-          /\ win' \in (IF Len(links) = 1 THEN {"", " maxdepth 9", " mindepth 1"} ELSE {""})
+          \* (and, for one link, windows that cut: what lies behind the link is counted from the link on)
+          /\ win' \in (IF Len(links) = 1 THEN {"", " maxdepth 9", " mindepth 1", " maxdepth 2", " maxdepth 3", " mindepth 3", " mindepth 2 maxdepth 3"} ELSE {""})
           /\ two' \in (IF Len(links) = 2 /\ links[1].at = 2 /\ links[2].at = 5 /\ spell' # "dot" THEN BOOLEAN ELSE {FALSE})
           \* mix: with two roots, which of them carry the option (a real directory is still listed once per query)
           /\ mix' \in (IF two' THEN {"both", "first", "second"} ELSE {"both"})
@@ -64,14 +67,16 @@ Opts(opt) == opt \o win \o (IF dfs THEN " dfs" ELSE "")
 OptA(opt) == IF mix = "second" THEN "" ELSE opt
 OptB(opt) == IF mix = "first" THEN "" ELSE opt
 Q(opt) == "select inode, path from " \o (IF two THEN RootA \o Opts(OptA(opt)) \o ", " \o RootB \o Opts(OptB(opt)) ELSE RootText \o Opts(opt)) \o " into list"
-TargetClass(t) == CASE t = -1 -> "dangling" [] t = 0 -> "above-root" [] t = 1 -> "root" [] t \in {7, 9} -> "outside" [] t \in {3, 8} -> "file"
+TargetClass(t) == CASE t = -1 -> "dangling" [] t = 0 -> "above-root" [] t = 1 -> "root" [] t \in {7, 9, 12} -> "outside" [] t \in {3, 8} -> "file"
                     [] t > NS -> "link" [] OTHER -> "inside"
 RECURSIVE LinksClass(_)
 LinksClass(j) == IF j > Len(links) THEN ""
                  ELSE (IF j > 1 THEN "+" ELSE "") \o TargetClass(links[j].to)
                       \o (IF links[j].to >= 0 /\ links[j].to <= NS /\ Below(W, links[j].to, NS + j) THEN "(ancestor)" ELSE "")
                       \o "/" \o links[j].style \o LinksClass(j + 1)
-Scenario == [prop |-> "C18", class |-> LinksClass(1) \o "/" \o spell \o (IF win # "" THEN "/window" ELSE "") \o (IF two THEN "/two-roots" \o (IF mix = "both" THEN "" ELSE "/option-on-" \o mix) ELSE ""),
+Scenario == [prop |-> "C18", class |-> LinksClass(1) \o "/" \o spell \o (IF win \in {" maxdepth 9", " mindepth 1"} THEN "/window" ELSE IF win # "" THEN "/cutting-window" ELSE "") \o (IF two THEN "/two-roots" \o (IF mix = "both" THEN "" ELSE "/option-on-" \o mix) ELSE ""),
+             min |-> (CASE win = " mindepth 3" -> 3 [] win = " mindepth 2 maxdepth 3" -> 2 [] OTHER -> 0),
+             max |-> (CASE win = " maxdepth 2" -> 2 [] win \in {" maxdepth 3", " mindepth 2 maxdepth 3"} -> 3 [] OTHER -> 0),
              world |-> W, root |-> 1, roots |-> IF two THEN <<2, 4>> ELSE <<1>>, followed |-> IF ~two THEN <<1>> ELSE IF mix = "first" THEN <<2>> ELSE IF mix = "second" THEN <<4>> ELSE <<2, 4>>,
              env |-> [tz |-> "UTC", cwd |-> IF spell = "dot" THEN 1 ELSE 0],
              runs |-> << [tag |-> "follow", ncols |-> 2, timeout |-> 10, argv |-> << Q(" symlinks") >>],
